@@ -394,4 +394,64 @@ theorem execCallName_ok (np : Bool) : StepSpec np execCallName := by
   all_goals (first | (vm_fvc; done) | skip)
   all_goals (vm_fvc; trace_state)
 
+/-! ### dispatch, step, loop -/
+
+theorem stepSpec_ite (np : Bool) (c : Prop) [Decidable c] {a b : M Ctl} (ha : StepSpec np a) (hb : StepSpec np b) :
+    StepSpec np (if c then a else b) := by
+  split <;> assumption
+
+theorem dispatch_ok (np : Bool) (F : FloatOps) (op : Nat) : StepSpec np (dispatch F op) := by
+  unfold dispatch
+  refine stepSpec_ite np _ (execConstant_ok np) ?_
+  refine stepSpec_ite np _ (execGetLocal_ok np) ?_
+  refine stepSpec_ite np _ (execSetLocal_ok np) ?_
+  refine stepSpec_ite np _ (execBinaryOp_ok np F) ?_
+  refine stepSpec_ite np _ (execAndJump_ok np) ?_
+  refine stepSpec_ite np _ (execOrJump_ok np) ?_
+  refine stepSpec_ite np _ (execEqual_ok np F op) ?_
+  refine stepSpec_ite np _ (execTrue_ok np) ?_
+  refine stepSpec_ite np _ (execFalse_ok np) ?_
+  refine stepSpec_ite np _ (execCall_ok np) ?_
+  refine stepSpec_ite np _ (execCallName_ok np) ?_
+  refine stepSpec_ite np _ (execReturn_ok np) ?_
+  refine stepSpec_ite np _ (execGetBuiltin_ok np) ?_
+  refine stepSpec_ite np _ (execClosure_ok np) ?_
+  refine stepSpec_ite np _ (execJump_ok np) ?_
+  refine stepSpec_ite np _ (execJumpFalsy_ok np) ?_
+  refine stepSpec_ite np _ (execGetGlobal_ok np) ?_
+  refine stepSpec_ite np _ (execSetGlobal_ok np) ?_
+  refine stepSpec_ite np _ (execArray_ok np) ?_
+  refine stepSpec_ite np _ (execMap_ok np) ?_
+  refine stepSpec_ite np _ (execGetIndex_ok np) ?_
+  refine stepSpec_ite np _ (execSetIndex_ok np) ?_
+  refine stepSpec_ite np _ (execSliceIndex_ok np) ?_
+  refine stepSpec_ite np _ (execGetFree_ok np) ?_
+  refine stepSpec_ite np _ (execSetFree_ok np) ?_
+  refine stepSpec_ite np _ (execGetLocalPtr_ok np) ?_
+  refine stepSpec_ite np _ (execGetFreePtr_ok np) ?_
+  refine stepSpec_ite np _ (execDefineLocal_ok np) ?_
+  refine stepSpec_ite np _ (execNull_ok np) ?_
+  refine stepSpec_ite np _ (execPop_ok np) ?_
+  refine stepSpec_ite np _ (execIterInit_ok np) ?_
+  refine stepSpec_ite np _ (execIterNext_ok np op) ?_
+  refine stepSpec_ite np _ (execLoadModule_ok np) ?_
+  refine stepSpec_ite np _ (execStoreModule_ok np) ?_
+  refine stepSpec_ite np _ (execSetupTry_ok np) ?_
+  refine stepSpec_ite np _ (execSetupCatch_ok np) ?_
+  refine stepSpec_ite np _ (execSetupFinally_ok np) ?_
+  refine stepSpec_ite np _ (execThrow_ok np) ?_
+  refine stepSpec_ite np _ (execFinalizer_ok np) ?_
+  refine stepSpec_ite np _ (execUnary_ok np F) ?_
+  refine stepSpec_ite np _ (execNoOp_ok np) ?_
+  exact execUnknown_ok np op
+
+/-- **one instruction preserves the invariants**, for arbitrary bytecode and an arbitrary
+    boundary state: it completes in a boundary state, or raises (panic / outside the model)
+    leaving a state that satisfies the recovery-path invariant -/
+theorem step_ok (np : Bool) (F : FloatOps) : StepSpec np (step F) := by
+  apply triple_of_fixed'; intro s0 hpre
+  have dp := dispatch_ok np F
+  step_gen [step, dp]
+  all_goals (first | (vm_vc; done) | trace_state)
+
 end UgoVerif.Proofs.VM
